@@ -460,7 +460,7 @@ def cmp_matrix(prop, pfx):
     for a in SCALARS:
         ps = [(a, b) for b in SCALARS]
         for i in range(0, len(ps), chunk):
-            hs.append(("%s_sc_%s_%d" % (pfx, a, i // chunk), ps[i:i + chunk], "quick" if a in ("null", "f64", "bool") else "thorough"))
+            hs.append(("%s_sc_%s_%d" % (pfx, a, i // chunk), ps[i:i + chunk], "quick"))  # every scalar pair incl. (i64,i64), (u64,u64) is quick: seed C09-w3m1 (i64 fast path in abstract_lt) was missed while the i64/u64 left shapes were thorough-only
     # scalar x converted string-like, both orders
     for a in SCALARS:
         ps = [(a, b) for b in CONVS] + [(b, a) for b in CONVS]
